@@ -366,7 +366,7 @@ func (g *c02Gen) stmt(d int) string {
 	case 6:
 		return "func g" + g.pick("1", "2") + "(p, q) {\n" + g.stmt(d-1) + "\n" + g.bareExpr(d-1) + "\n}"
 	case 7:
-		return g.pick("x++", "y--", "println(" + g.expr(d-1) + ")")
+		return g.pick("x++", "y--", "println("+g.expr(d-1)+")")
 	default:
 		return g.pick("// note", "/* note */ ") + g.pick("", "x = "+g.expr(0))
 	}
